@@ -2,7 +2,7 @@
 # build the model driver from the extracted model; output: /verif/work/ocaml/driver
 set -e
 HERE=$(cd "$(dirname "$0")" && pwd)
-OUT=/verif/work/ocaml
+OUT="$HERE/../work/ocaml"
 mkdir -p "$OUT"
 cp "$HERE"/../coq/extracted/model.ml "$HERE"/../coq/extracted/model.mli "$HERE"/conv.ml "$HERE"/ops.ml "$HERE"/driver.ml "$OUT"/
 cd "$OUT"
